@@ -46,12 +46,12 @@ pub broadcast proof fn lemma_limbs_bytes_b(l: Seq<u64>, b: Seq<u8>)
 {
     lemma_limbs_bytes(l, b);
 }
-pub proof fn lemma_bytes_val_bound(s: Seq<u8>)
-    ensures 0 <= bytes_val(s)
+pub broadcast proof fn lemma_bytes_val_bound(s: Seq<u8>)
+    ensures 0 <= #[trigger] bytes_val(s)
     decreases s.len()
 { if s.len() > 0 { lemma_bytes_val_bound(s.drop_first()); } }
-pub proof fn lemma_limbs_val_bound(s: Seq<u64>)
-    ensures 0 <= limbs_val(s)
+pub broadcast proof fn lemma_limbs_val_bound(s: Seq<u64>)
+    ensures 0 <= #[trigger] limbs_val(s)
     decreases s.len()
 { if s.len() > 0 { lemma_limbs_val_bound(s.drop_first()); } }
 
